@@ -24,25 +24,27 @@ T_Names   == {"n1", "n2"}
 T_Variants == {"a", "b"}
 T_SignerSets == {{}, {"ALPHA"}, {"ALPHA", "CMT"}, {"CMT"}, {"X"}}
 
-\* ---- C05-centred configurations: fees, mints, committee sizes; one name, no NNS environment ----
-F_Owners  == {"o1"}
-F_Cids    == {"c1"}
-F_COwner  == [c \in F_Cids |-> "o1"]
-FT_Cids   == {"c1"}
-FT_COwner == [c \in FT_Cids |-> "o1"]
+\* ---- C05-centred configurations: fees, mints, committee sizes, two puts per block, an owner that is an Alphabet node;
+\* one name, no delete / eACL / meta, no NNS environment ----
+\* c1 belongs to the ordinary owner o1, c2 to oa whose account is an Alphabet node's standard account
+F_Owners  == {"o1", "oa"}
+F_Cids    == {"c1", "c2"}
+F_COwner  == [c \in F_Cids |-> IF c = "c2" THEN "oa" ELSE "o1"]
+FT_Cids   == {"c1", "c2"}
+FT_COwner == [c \in FT_Cids |-> IF c = "c2" THEN "oa" ELSE "o1"]
 F_Names   == {"n1"}
 F_Variants == {"a"}
 F_SignerSets == {{}, {"ALPHA"}}
-F_Fees    == {0, 1, 3}
-F_Amounts == {1, 2}
+F_Fees    == {0, 1, 2}
+F_Amounts == {1}
 FQ_NSet   == {1, 4}
 FT_NSet   == {1, 3, 4, 7}
 FT_Fees   == {0, 1, 2, 3}
 
 \* ---- simulation (scenario generation) ----
-S_Owners  == {"o1", "o2", "o3"}
+S_Owners  == {"o1", "o2", "oa"}
 S_Cids    == {"c0", "c1", "c2", "c3", "c4", "c5"}
-S_COwner  == [c \in S_Cids |-> IF c \in {"c0", "c1", "c2"} THEN "o1" ELSE IF c \in {"c3", "c4"} THEN "o2" ELSE "o3"]
+S_COwner  == [c \in S_Cids |-> IF c \in {"c0", "c1", "c2"} THEN "o1" ELSE IF c \in {"c3", "c4"} THEN "o2" ELSE "oa"]
 S_PutCids == S_Cids \ {"c0"}
 S_Names   == {"n1", "n2", "n3"}
 S_Variants == {"a", "b"}
@@ -58,7 +60,7 @@ MCSpec == MCInit /\ [][MCNext]_mcvars
 One(X) == IF X = {} THEN {} ELSE {RandomElement(X)}
 S_SignerBias == <<{"ALPHA"}, {"ALPHA"}, {"ALPHA"}, {"ALPHA", "CMT"}, {"ALPHA", "CMT"}, {"CMT", "X"}>>
 OneS(X) == IF RandomElement(1..4) = 1 THEN One(X) ELSE {S_SignerBias[RandomElement(1..Len(S_SignerBias))]}
-SimNext == NextOf(One, OneS) /\ g' = GNext(g, ev') /\ hist' = Append(hist, [ev' EXCEPT !.ntf = <<>>, !.xfer = <<>>])
+SimNext == NextOf(One, OneS) /\ g' = GNext(g, ev') /\ hist' = Append(hist, [ev' EXCEPT !.ntf = <<>>, !.xfer = <<>>, !.ntf2 = <<>>, !.xfer2 = <<>>])
 SimSpec == MCInit /\ [][SimNext]_mcvars
 
 MCView == <<x, oidx, tomb, meta, eacl, alias, dom, txt, bal, abal, fee, afee, n, idk, g>>
@@ -76,6 +78,8 @@ BoundedA == \A k \in 1..n : abal[k] <= MaxBal
 Inv_Index == oidx = {c \in Cids : x[c] # None}
 Inv_Tomb  == \A c \in tomb : x[c] = None
 Inv_Ghost == /\ Live(g) = {c \in Cids : x[c] # None} /\ g.dead = tomb
+\* the two readings of the Alphabet-node owner's account agree
+Inv_Mirror == AlphaOwner \in Owners => bal[AlphaOwner] = abal[AIdx(n)]
 TypeOK == /\ \A c \in Cids : x[c] \in Variants \cup {None}
           /\ \A o \in Owners : bal[o] >= 0
           /\ \A k \in 1..n : abal[k] >= 0
